@@ -72,17 +72,18 @@ pub fn build(id: &str, tier: Tier) -> Option<Check> {
         "C05" => Check {
             id: "C05",
             jobs: vec![
-                bfs(Fee::base("c05-configs"), tier.pick(3, 5), secs),
+                bfs(Fee { exact: vec![("0.5", (1, 2)), ("0.9", (1, 10))], ..Fee::base("c05-configs") }, tier.pick(3, 5), secs),
+                bfs(Fee { rewarded: true, fees: vec!["0.005", "0.25", "1"], thresholds: vec!["1", "0.95"], ..Fee::base("c05-rewarded") }, tier.pick(3, 4), secs),
                 bfs(Fee { scale: 1_000_000_000_000_000, slashes: vec![(1, 10000), (1, 2)], fees: vec!["0.005", "1"], thresholds: vec!["1", "0.95"], ..Fee::base("c05-1e15") }, tier.pick(3, 4), secs),
             ],
             rule: "start states = every (peg_recovery_fee in {0,0.005,0.5,1}) x (er_threshold in {0,0.95,1}) x (slash 10%, 1%) deployment with both pools funded (and a 1e15-scaled instance with slashes 0.01% and 50%); every sequence of <= D fee-path transactions (bond 1/100/5000, unbond and convert of 1/half/all of the balance, both directions) by 2 users; every successful one is compared with the exact no-fee amount, the fee bound and the post-state peg; non-trivial = a fee path executed".into(),
             assumptions: envelope(),
-            essential: vec!["c05_fee_path_checked", "c05_no_fee_at_or_above_threshold", "c05_fee_charged_paths", "c05_positive_fee", "c05_peg_overshoot_checked"],
+            essential: vec!["c05_fee_path_checked", "c05_no_fee_at_or_above_threshold", "c05_fee_charged_paths", "c05_positive_fee", "c05_peg_overshoot_checked", "c05_rate_exactly_on_threshold", "c05_fee_with_stsei_rate_above_one"],
         },
         "C06" => Check {
             id: "C06",
             jobs: vec![
-                bfs(hub("c06-main", |h| { h.arm.c06 = true; h.budget = tier.pick(2, 3); h.slash_fracs = if q { vec![(1, 10)] } else { vec![(1, 10), (1, 2), (1, 10000)] }; h.seeds = if q { vec!["funded", "slashed_unseen"] } else { vec!["funded", "slashed_unseen", "inflight", "three_vals"] }; h.with_withdraw = false; }), tier.pick(4, 6), secs),
+                bfs(hub("c06-main", |h| { h.arm.c06 = true; h.with_rewards = true; h.budget = tier.pick(2, 3); h.slash_fracs = if q { vec![(1, 10)] } else { vec![(1, 10), (1, 2), (1, 10000)] }; h.seeds = if q { vec!["funded", "slashed_unseen"] } else { vec!["funded", "slashed_unseen", "inflight", "three_vals"] }; h.with_withdraw = false; }), tier.pick(4, 6), secs),
                 bfs(ulc("c06-release", |h| { h.arm.c06 = true; h.budget = tier.pick(2, 3); h.slash_vals = vec!["val1", "val2"]; h.sym = false; h.amounts_abs = vec![100, 37]; h.seeds = vec!["funded", "two_inflight"]; }), tier.pick(5, 7), secs),
                 bfs(hub("c06-onepool", |h| { h.arm.c06 = true; h.budget = 2; h.seeds = vec!["fresh"]; h.with_withdraw = false; h.with_convert = false; h.bond_amounts = vec![1000, 3]; h.slash_fracs = vec![(1, 10), (1, 2)]; }), tier.pick(4, 5), secs),
             ],
@@ -118,7 +119,7 @@ pub fn build(id: &str, tier: Tier) -> Option<Check> {
                 id: "C08",
                 jobs: periods
                     .into_iter()
-                    .map(|(e, u)| bfs(ulc(&format!("c08-E{}-U{}", e, u), |h| { h.arm.c08 = true; h.epoch = e; h.unbonding = u; h.full_time = true; h.sym = false; h.amounts_abs = vec![1, 100]; h.seeds = vec!["funded"]; h.budget = 0; }), tier.pick(5, 7), secs / 3.0))
+                    .map(|(e, u)| bfs(ulc(&format!("c08-E{}-U{}", e, u), |h| { h.arm.c08 = true; h.epoch = e; h.unbonding = u; h.full_time = true; h.sym = false; h.amounts_abs = vec![1, 100]; h.seeds = vec!["funded"]; h.budget = 0; }), tier.pick(6, 8), secs / 3.0))
                     .collect(),
                 rule: "for each (epoch, unbonding) period configuration every sequence of <= D unbond(1|100)/withdraw actions of 2 users interleaved with the full time-region alphabet (+1 second and every critical instant c-1, c, c+1 of the epoch boundary and of every pending release); every transition compares the history before/after and checks the epoch and unbonding comparisons at the exact boundary seconds; non-trivial = batch close, release transition, in-epoch unbond or a paid withdraw".into(),
                 assumptions: envelope(),
@@ -137,13 +138,17 @@ pub fn build(id: &str, tier: Tier) -> Option<Check> {
         },
         "C10" => Check {
             id: "C10",
-            jobs: crate::auth::OWNED
-                .iter()
-                .map(|k| bfs(crate::auth::Auth { contract: k, seeds: if q { vec!["fresh", "funded"] } else { vec!["fresh", "funded", "evolved"] } }, tier.pick(3, 5), secs / 4.0))
-                .collect(),
+            jobs: {
+                let mut j: Vec<Box<dyn Runnable>> = crate::auth::OWNED
+                    .iter()
+                    .map(|k| bfs(crate::auth::Auth { contract: k, seeds: vec!["fresh", "funded", "evolved"] }, tier.pick(4, 5), secs / 4.0))
+                    .collect();
+                j.push(bfs(crate::auth::Wiring, tier.pick(5, 7), secs / 4.0));
+                j
+            },
             rule: "for each owned contract (hub, dispatcher, reward, registry) a BFS over its two-step ownership machine (SetOwner(x) for x in {nominee, stranger, old owner} and AcceptOwnership, each by owner / nominee / stranger; fresh, nominated, completed, abandoned, re-nominated and handed-back states) from fresh and evolved business states; in every distinct state the full matrix of 44 privileged message shapes of all six contracts x 16 sender classes (owner, nominee, ex-owner, each sibling contract, swap, oracle, airdrop registry, keeper, updater, users, the contract itself) is executed on clones: a sender outside the designated principals must be rejected without any state change, a designated principal must never be rejected with an authorisation error; non-trivial = matrix cells executed".into(),
             assumptions: vec!["the authorisation table is written from the property text (owner-only, nominee-only, dispatcher / registry / hub / token / airdrop-registry-only messages)".into(), "rejected transactions are rolled back by the chain (DESIGN.md 3.1)".into()],
-            essential: vec!["c10_ownership_steps", "c10_authorised_cells", "c10_unauthorised_cells", "c10_authorised_cells_succeeded"],
+            essential: vec!["c10_ownership_steps", "c10_authorised_cells", "c10_unauthorised_cells", "c10_authorised_cells_succeeded", "c10_wiring_rejections_expected", "c10_wiring_accepts_expected"],
         },
         "C11" => Check {
             id: "C11",
@@ -153,21 +158,21 @@ pub fn build(id: &str, tier: Tier) -> Option<Check> {
             ],
             rule: "in every distinct state of a hub exploration (bond, unbond, convert, withdraw, index update, accrual, registry, time, slashing; depth 2 quick / 3 thorough) the owner pauses a clone; then (a) every hub query must answer as before, (b) the full matrix of 14 hub message shapes x 11 sender classes must fail without any change, as must every path entering the hub through a token Send hook, the registry or a burn, (c) UpdateParams by non-owners is refused and the wait-list migration is a no-op, (d) unpausing either way restores the pre-pause state byte for byte (pause-flag representation aside) and (e) every action of the alphabet gives the identical result and successor in the original and in the cycled world (lock-step product); a second scenario seeds 0/1/3 legacy wait-list entries (as the repository's test_pause does) and explores unpause/migrate/pause sequences to a fixpoint; non-trivial = states probed".into(),
             assumptions: envelope(),
-            essential: vec!["c11_states_probed", "c11_paused_matrix_cells", "c11_paused_entering_paths", "c11_cycles_compared", "c11_product_steps", "c11_legacy_unpause_attempts", "c11_legacy_migrations"],
+            essential: vec!["c11_states_probed", "c11_paused_matrix_cells", "c11_paused_entering_paths", "c11_cycles_compared", "c11_product_steps", "c11_legacy_unpause_attempts", "c11_legacy_migrations", "c11_legacy_states_with_entries"],
         },
         "C12" => Check {
             id: "C12",
-            jobs: vec![Box::new(C12Enum { max_len: tier.pick(4, 5), max_val: tier.pick(5, 7) })],
-            rule: "every validator list of length 0..=L with delegations in 0..=V in every order (L=4,V=5 quick; L=5,V=7 thorough), every amount 0..=sum+6, plus the same box scaled by 1e6+3, 1e12+7 and ~1e18/(L*V) with +-1 perturbations of delegations and amounts, through the public calculate_delegations / calculate_undelegations; each call under a 2 s watchdog; non-trivial = accepted plan with amount > 0".into(),
+            jobs: vec![Box::new(C12Enum { max_len: tier.pick(5, 6), max_val: tier.pick(5, 6) })],
+            rule: "every validator list of length 0..=L with delegations in 0..=V in every order (L=5,V=5 quick; L=6,V=6 thorough), every amount 0..=sum+6, plus the same box scaled by 1e6+3, 1e12+7 and ~1e18/(L*V) with +-1 perturbations of delegations and amounts, through the public calculate_delegations / calculate_undelegations; each call under a 2 s watchdog; non-trivial = accepted plan with amount > 0".into(),
             assumptions: vec!["the two planning functions are pure; totals stay below 2^127 (u128-safe range of the property)".into()],
             essential: vec!["c12_empty_list", "c12_lists_with_zero", "c12_unsorted_lists", "c12_undelegate_rejected"],
         },
         "C14" => Check {
             id: "C14",
             jobs: vec![
-                bfs(rw("c14-main", |h| { h.arm.c14 = true; h.seeds = vec!["holders", "empty"]; if !q { h.users = vec![ALICE, BOB, CAROL]; } }), tier.pick(4, 5), secs),
-                bfs(rw("c14-big", |h| { h.arm.c14 = true; h.seeds = vec!["big"]; h.rewards = vec![1, 1_000_000_000_000_000_000]; h.bond_amounts = vec![10_000_000_000_000_000]; h.with_hub_ops = false; }), tier.pick(4, 5), secs),
-                bfs(rw("c14-allowance", |h| { h.arm.c14 = true; h.seeds = vec!["allowances"]; h.with_allowance = true; h.rewards = vec![19]; }), tier.pick(3, 4), secs),
+                bfs(rw("c14-main", |h| { h.arm.c14 = true; h.seeds = vec!["holders", "empty"]; if !q { h.users = vec![ALICE, BOB, CAROL]; } }), tier.pick(5, 6), secs),
+                bfs(rw("c14-big", |h| { h.arm.c14 = true; h.seeds = vec!["big"]; h.rewards = vec![1, 1_000_000_000_000_000_000]; h.bond_amounts = vec![10_000_000_000_000_000]; h.with_hub_ops = false; }), tier.pick(5, 6), secs),
+                bfs(rw("c14-allowance", |h| { h.arm.c14 = true; h.seeds = vec!["allowances"]; h.with_allowance = true; h.rewards = vec![19]; }), tier.pick(4, 5), secs),
             ],
             rule: "every sequence of <= D bSei operations (mint via bond, transfer incl. to self, send-to-hub unbond/convert, allowance-based transfer/send/burn), reward deliveries {7,1000} (and {1,1e18} against a 1e18 holder) and claims (to self / to another recipient) by 2-3 holders plus a spender, including deliveries while nobody holds bSei; solvency and completeness are recomputed in 1e-18 fixed point from the Holders and State queries in every distinct state, every claim is compared with the exact whole/fraction split; non-trivial = a state with accrued rewards or a claim".into(),
             assumptions: envelope(),
@@ -176,11 +181,11 @@ pub fn build(id: &str, tier: Tier) -> Option<Check> {
         "C15" => Check {
             id: "C15",
             jobs: vec![
-                bfs(rw("c15-ledger", |h| { h.arm.c15 = true; h.seeds = vec!["holders", "empty"]; if !q { h.users = vec![ALICE, BOB, CAROL]; } }), tier.pick(4, 5), secs),
-                bfs(rw("c15-allowance", |h| { h.arm.c15 = true; h.seeds = vec!["allowances"]; h.with_allowance = true; h.with_sink = true; h.rewards = vec![19]; }), tier.pick(3, 4), secs),
+                bfs(rw("c15-ledger", |h| { h.arm.c15 = true; h.seeds = vec!["holders", "empty"]; if !q { h.users = vec![ALICE, BOB, CAROL]; } }), tier.pick(5, 6), secs),
+                bfs(rw("c15-allowance", |h| { h.arm.c15 = true; h.seeds = vec!["allowances"]; h.with_allowance = true; h.with_sink = true; h.rewards = vec![19]; }), tier.pick(4, 5), secs),
                 bfs(rw("c15-diamonds", |h| { h.arm.diamonds = true; h.seeds = vec!["allowances"]; h.with_allowance = true; h.rewards = vec![19]; }), tier.pick(2, 3), secs),
-                bfs(rw("c15-split-2-1", |h| { h.seeds = vec!["split"]; h.split = Some((2, 1)); h.rewards = vec![7, 1_000_000_000_000_000_000]; }), tier.pick(5, 7), secs),
-                bfs(rw("c15-split-big", |h| { h.seeds = vec!["split"]; h.split = Some((999_999_999_999_999_999, 1)); h.rewards = vec![1, 1000]; }), tier.pick(5, 6), secs),
+                bfs(rw("c15-split-2-1", |h| { h.seeds = vec!["split"]; h.split = Some((2, 1)); h.rewards = vec![7, 1_000_000_000_000_000_000]; }), tier.pick(6, 8), secs),
+                bfs(rw("c15-split-big", |h| { h.seeds = vec!["split"]; h.split = Some((999_999_999_999_999_999, 1)); h.rewards = vec![1, 1000]; }), tier.pick(6, 7), secs),
             ],
             rule: "(i) reference ledger: at each delivery every holder's reference accrual grows by balance x distributed / total (floor and ceiling bounds in 1e-18 units) and accrued + claimed must stay within it; (ii) frame: every non-delivery transition leaves every holder's exact accrued reward unchanged (own claim excepted); (iii) commutation diamonds: in every state up to depth D every pair of enabled operations of different actors is run in both orders and the reward contract's storage must be byte-identical; (iv) product exploration: a world where alice holds X in one account and a world where the same X is split over two accounts run in lock-step under identical operations of everyone else; accrual must be equal. non-trivial = transitions where one of these compared something".into(),
             assumptions: envelope(),
@@ -189,8 +194,8 @@ pub fn build(id: &str, tier: Tier) -> Option<Check> {
         "C16" => Check {
             id: "C16",
             jobs: vec![
-                bfs(rw("c16-all-entry-points", |h| { h.arm.c16 = true; h.seeds = vec!["allowances", "empty"]; h.with_allowance = true; h.with_sink = true; h.rewards = vec![19]; if !q { h.users = vec![ALICE, BOB, CAROL]; } }), tier.pick(3, 4), secs),
-                bfs(rw("c16-hub-paths", |h| { h.arm.c16 = true; h.seeds = vec!["holders"]; h.bond_amounts = vec![3, 1_000_000_000_000_000_000]; }), tier.pick(4, 6), secs),
+                bfs(rw("c16-all-entry-points", |h| { h.arm.c16 = true; h.seeds = vec!["allowances", "empty"]; h.with_allowance = true; h.with_sink = true; h.rewards = vec![19]; if !q { h.users = vec![ALICE, BOB, CAROL]; } }), tier.pick(4, 5), secs),
+                bfs(rw("c16-hub-paths", |h| { h.arm.c16 = true; h.seeds = vec!["holders"]; h.bond_amounts = vec![3, 900_000_000_000_000_000]; }), tier.pick(5, 6), secs),
             ],
             rule: "every sequence of <= D bSei entry points (mint via bond, burn via hub unbond/convert, transfer incl. to self, send to the hub with both hooks, send to a non-hub contract, increase/decrease allowance, TransferFrom incl. recipient = owner and amount 0, SendFrom, BurnFrom) by holders, a spender and the hub, starting from a token without initial balances; in every distinct state the reward contract's Holders list is compared with the token's AllAccounts/Balance for every address and the totals are compared; non-trivial = every distinct state".into(),
             assumptions: envelope(),
@@ -231,7 +236,7 @@ pub fn build(id: &str, tier: Tier) -> Option<Check> {
                 jobs.push(bfs(sweep, tier.pick(2, 3), secs / 4.0));
                 let mut ops = Token::new(tok, "ops");
                 ops.seeds = vec![vec![], vec![(ALICE, 5), (BOB, 1)]];
-                jobs.push(bfs(ops, tier.pick(4, 5), secs / 2.0));
+                jobs.push(bfs(ops, tier.pick(5, 6), secs / 2.0));
             }
             Check {
                 id: "C18",
